@@ -459,6 +459,8 @@ func genSpec(seed uint64, worker, run int, tier string) (*Spec, *Rng, faultSet) 
 		g.marathon(s, hot, fs, tier)
 	case k < 20:
 		g.argstorm(s, fs)
+	case k < 24:
+		g.duel(s)
 	}
 	s.Order = r.Perm(len(s.Tasks))
 	return s, r, fs
@@ -597,6 +599,42 @@ func (g *gen) argstorm(s *Spec, fs faultSet) {
 	s.Strategy = "argstorm"
 }
 
+// duel: two objects (of the same kind when possible) are used as receiver and
+// argument of two-object predicates in BOTH directions by different callers
+// (state touched on both operands: per-object locks taken in operand order,
+// statistics, pairwise memo tables).
+func (g *gen) duel(s *Spec) {
+	r := g.r
+	n := len(s.Pool)
+	h1 := r.Intn(n)
+	h2 := (h1 + 1 + r.Intn(n-1)) % n
+	for k := 0; k < 8; k++ {
+		c := r.Intn(n)
+		if c != h1 && s.Pool[c].Kind == s.Pool[h1].Kind && s.Pool[c].Via == s.Pool[h1].Via {
+			h2 = c
+			break
+		}
+	}
+	nt := r.Pick(2, 2, 3, 4)
+	s.Tasks = nil
+	for t := 0; t < nt; t++ {
+		m := r.Range(3, 25)
+		ops := make([]Op, m)
+		for i := range ops {
+			op := Op{M: mObjArg[r.Intn(len(mObjArg))], R: h1, A: h2}
+			if (t+i)%2 == 1 || r.Chance(0.2) {
+				op.R, op.A = h2, h1
+			}
+			if r.Chance(0.15) {
+				op.Path = []int{r.Intn(50)}
+			}
+			ops[i] = op
+		}
+		s.Tasks = append(s.Tasks, ops)
+	}
+	s.Strategy = "duel"
+}
+
 // allMethods is every operation the driver knows, for sweep workloads.
 func allMethods() []string {
 	var ms []string
@@ -676,7 +714,7 @@ func finalizeSchedule(s *Spec, r *Rng, fs faultSet, soloSteps int64) {
 	var abs []absDecision
 	var hotDec []verifsim.Decision
 	pre := ""
-	if s.Strategy == "sweep" || s.Strategy == "crowd" || s.Strategy == "marathon" || s.Strategy == "argstorm" {
+	if s.Strategy == "sweep" || s.Strategy == "crowd" || s.Strategy == "marathon" || s.Strategy == "argstorm" || s.Strategy == "duel" {
 		pre = s.Strategy + "+"
 	}
 	defer func() { s.Strategy = pre + s.Strategy }()
